@@ -20,7 +20,7 @@ Record ucase := UCase {
   u_shrunk : option traced;                   (* what the real shrink_traced_types returned *)
   u_out : option sig;                         (* get_updated_definition(...).signature; None for CLI cases *)
   u_rendered : option (list rparam * option anno);   (* parsed from the rendered stub *)
-  u_env : list (string * ty);                 (* what each string annotation evaluates to in its module *)
+  u_env : list (string * anno);               (* what each string annotation evaluates to in its module *)
   u_raised : bool;                            (* the implementation raised *)
   u_usage : bool                              (* the CLI exited with a usage error *)
 }.
@@ -42,14 +42,24 @@ Fixpoint resolve_ty (env : list (string * ty)) (t : ty) : ty :=
   | TAny | TCls _ | TCallable | TTypedDict _ _ => t
   end.
 
-Definition resolve (env : list (string * ty)) (a : anno) : anno :=
+Fixpoint lookup_anno (k : string) (env : list (string * anno)) : option anno :=
+  match env with
+  | [] => None
+  | e :: r => if String.eqb k (fst e) then Some (snd e) else lookup_anno k r
+  end.
+
+(* the entries that denote a type of the shared vocabulary (usable below a generic / Union) *)
+Definition env_ty (env : list (string * anno)) : list (string * ty) :=
+  flat_map (fun e => match snd e with ATy t => [(fst e, t)] | _ => [] end) env.
+
+Definition resolve (env : list (string * anno)) (a : anno) : anno :=
   match a with
-  | ATy t => ATy (resolve_ty env t)
-  | AStr s => match lookup_f s env with Some x => ATy x | None => a end
+  | ATy t => ATy (resolve_ty (env_ty env) t)
+  | AStr s => match lookup_anno s env with Some x => x | None => a end
   | _ => a
   end.
 
-Definition denote_eqb (env : list (string * ty)) (a b : option anno) : bool :=
+Definition denote_eqb (env : list (string * anno)) (a b : option anno) : bool :=
   oanno_corrb (option_map (resolve env) a) (option_map (resolve env) b).
 
 (* ---- comparisons ---- *)
@@ -79,11 +89,11 @@ Definition traced_corrb (a b : traced) : bool :=
         annotation (Optional-wrapped for a None default), up to denotation of string annotations ---- *)
 Definition has_default (d : dflt) : bool := match d with DNo => false | _ => true end.
 
-Definition rendered_param_ok (env : list (string * ty)) (o : param) (r : rparam) : bool :=
+Definition rendered_param_ok (env : list (string * anno)) (o : param) (r : rparam) : bool :=
   String.eqb (pname o) (rname r) && pkind_eqb (pk o) (rkind r) && Bool.eqb (has_default (pdef o)) (rhasdef r)
   && denote_eqb env (shown_param o) (ranno r).
 
-Definition rendered_ok (env : list (string * ty)) (o : sig) (r : list rparam * option anno) : bool :=
+Definition rendered_ok (env : list (string * anno)) (o : sig) (r : list rparam * option anno) : bool :=
   all2 (rendered_param_ok env) (sparams o) (fst r) && denote_eqb env (sret o) (snd r).
 
 (* ---- the DOCUMENTED meaning, written out here independently of the regenerated tables, so that the
@@ -115,7 +125,7 @@ Definition candidates (m : mode) (recv : bool) (src : option anno) (tr : option 
   else if mI m then match tr with Some t => [Some (ATy t)] | None => [None; src] end
   else [].
 
-Fixpoint rendered_allowed_params (env : list (string * ty)) (m : mode) (hs : bool) (args : list (string * ty))
+Fixpoint rendered_allowed_params (env : list (string * anno)) (m : mode) (hs : bool) (args : list (string * ty))
          (idx : nat) (src : list param) (rs : list rparam) : bool :=
   match src, rs with
   | [], [] => true
@@ -126,7 +136,7 @@ Fixpoint rendered_allowed_params (env : list (string * ty)) (m : mode) (hs : boo
   | _, _ => false
   end.
 
-Definition rendered_allowed (env : list (string * ty)) (m : mode) (kind : string) (sg : sig) (tr : traced)
+Definition rendered_allowed (env : list (string * anno)) (m : mode) (kind : string) (sg : sig) (tr : traced)
            (r : list rparam * option anno) : bool :=
   rendered_allowed_params env m (doc_self kind) (targs tr) 0 (sparams sg) (fst r)
   && existsb (fun c => denote_eqb env c (snd r))
